@@ -103,7 +103,9 @@ func (p *Prog) HelperBinds(root *Fn) map[*types.Var][]Bind {
 }
 
 // HasNewHelpers reports whether root (transitively) calls a new helper.
-func (p *Prog) HasNewHelpers(root *Fn) bool { return len(p.HelperBinds(root)) > 0 || p.callsNewHelper(root) }
+func (p *Prog) HasNewHelpers(root *Fn) bool {
+	return len(p.HelperBinds(root)) > 0 || p.callsNewHelper(root)
+}
 
 func (p *Prog) callsNewHelper(root *Fn) bool {
 	found := false
